@@ -249,6 +249,22 @@ class Sides:
         return c
 
 
+OPS = set('Add Sub Mul Div Rem Shl Shr Lt Le Gt Ge Eq Ne In BitwiseAnd BitwiseOr BitwiseXor LogicAnd LogicOr Minus Plus BitwiseNot LogicNot Default Hidden ForceVisible'.split())
+
+
+def count_ast(run, ast):
+    """histogram of the AST constructors / operators / visibilities the parser produced (from the AST dump)"""
+    for name in re.findall(r'\((\w+)[ )]', ast):
+        run.count('ast_' + name)
+    for w in re.findall(r' (\w+)(?= )', ast):
+        if w in OPS:
+            run.count('ast_op_' + w)
+    for m in re.finditer(r'\(FValue \(Fn\w+ [^()]*(?:\([^()]*\))?[^()]*\) ([01]) (\w+) ', ast):
+        run.count('ast_field_sep_%s%s' % ('+' if m.group(1) == '1' else '', {'Default': ':', 'Hidden': '::', 'ForceVisible': ':::'}.get(m.group(2), m.group(2))))
+    for m in re.finditer(r'\(Slice \S+ ', ast):
+        pass
+
+
 def compare_programs(run, sides, progs, label, count_nontrivial=True):
     """progs: list of (name, text, info).  K: implementation vs model."""
     texts = [p[1] for p in progs]
@@ -267,6 +283,8 @@ def compare_programs(run, sides, progs, label, count_nontrivial=True):
         run.count('%s_impl_%s' % (label, short(ic) if ic[0] != 'error' else 'error'))
         if ic[0] == 'error':
             run.count('impl_error_' + ic[1])
+        if ast is not None and label != 'replay':
+            count_ast(run, ast)
         if ic[0] == 'static' or ast is None:
             run.count(label + '_skipped_static_error')
             continue
@@ -489,11 +507,33 @@ def check(run):
     vlib.log('C02: corpus %.0fs' % (_t.time() - t0)); t0 = _t.time()
     uitests(run, sides)
     vlib.log('C02: ui-tests anchor %.0fs' % (_t.time() - t0)); t0 = _t.time()
-    n = 800 if run.tier == 'quick' else 20000
+    n = 700 if run.tier == 'quick' else 20000
     sizes = [12, 25, 40, 60] if run.tier == 'quick' else [12, 25, 40, 60, 100, 150]
     batch = 400 if run.tier == 'quick' else 2000
     done = 0
     ndis = 0
+    # targeted scenario streams: object reuse (observe / extend / observe again) and the separator matrix
+    nre = 80 if run.tier == 'quick' else 1500
+    reps = 2 if run.tier == 'quick' else 30
+    scen = []
+    for i in range(nre):
+        text, info = gen_prog.gen_reuse_program(rng)
+        scen.append(('r%d' % i, text, info))
+        for kname, c in info['kinds'].items():
+            run.count('reuse_' + kname, c)
+    j = 0
+    for sep in gen_prog.SEPARATORS:
+        for inh in (True, False):
+            for body in ('value', 'error'):
+                for _ in range(reps):
+                    text, info = gen_prog.gen_separator_program(rng, sep, inh, body)
+                    scen.append(('s%d' % j, text, info))
+                    j += 1
+                    run.count('sepcell %s %s %s' % info['cell'])
+                    for kname, c in info['kinds'].items():
+                        run.count(kname, c)
+    compare_programs(run, sides, scen, 'scenario')
+    vlib.log('C02: scenario streams %.0fs' % (_t.time() - t0)); t0 = _t.time()
     import random as _r
     while done < n:
         progs, asts = [], []
